@@ -705,3 +705,16 @@ def astral_defect(v):
     if isinstance(v, dict):
         return {astral_defect(k): astral_defect(x) for k, x in v.items()}
     return v
+
+
+def twin(v):
+    """A value that jawk's equality cannot tell from v although it is not identical to it: object members in the opposite
+    order (at every depth); 2^64-1 (an exact integer) becomes 2^64 (read as a double, equal to it through the f64 comparison).
+    Used to plant "equal but not the same text" neighbours in front of stages that may cache by equality."""
+    if isinstance(v, dict):
+        return {k: twin(x) for k, x in reversed(list(v.items()))}
+    if isinstance(v, list):
+        return [twin(x) for x in v]
+    if isinstance(v, int) and not isinstance(v, bool) and v == 2 ** 64 - 1:
+        return 2 ** 64
+    return v
